@@ -269,6 +269,56 @@ pub fn families() -> Vec<Box<dyn Family>> {
             },
         ),
         family(
+            "distinct_boundary",
+            "texts of n DISTINCT lines with n just below 256 / 4096 / 65536 (both sides) where a block is swapped for fresh lines so that both sides together cross the boundary: remapper + helpers on the line tokenizer x {Myers, Patience}",
+            true,
+            1,
+            |cfg| if cfg.tiny { 1 } else { 6 },
+            |idx, cfg, out| {
+                let mut rng = Rng::for_case(cfg.seed, "c17.distinct_boundary", idx);
+                let bound = if cfg.tiny { 8 } else { [256usize, 4096, 65536][(idx % 3) as usize] };
+                let n = bound - 1 - rng.below(bound.min(400) / 4 + 1);
+                let fresh = (rng.range(bound - n + 1, (bound - n + 1) + 300)).min(n);
+                let (a, b) = text_gen::distinct_lines_pair(&mut rng, n, fresh, fresh);
+                out.sample(|| format!("{} distinct lines per side, {} fresh (boundary {})", n, fresh, bound));
+                out.nontrivial(&(&a, &b));
+                for alg in [Algorithm::Myers, Algorithm::Patience] {
+                    for as_str in [false, true] {
+                        out.eval();
+                        let r = guard(|| {
+                            if as_str {
+                                let (sa, sb) = (std::str::from_utf8(&a).unwrap(), std::str::from_utf8(&b).unwrap());
+                                let d = diff_with(0, alg, sa, sb);
+                                check_remapper(&d, sa, sb)
+                            } else {
+                                let d = diff_with(0, alg, &a[..], &b[..]);
+                                check_remapper(&d, &a[..], &b[..])
+                            }
+                        });
+                        match r {
+                            Err(p) => out.violation("panic", format!("remapper panicked: {} | {} distinct lines per side, boundary {}", p, n, bound)),
+                            Ok((fails, slices)) => {
+                                out.count_n("remapped_slices_observed", slices);
+                                for (code, msg) in fails.into_iter().take(2) {
+                                    out.violation(code, format!("{} | {} distinct lines per side, {} fresh, alg={}", msg, n, fresh, alg_name(alg)));
+                                }
+                            }
+                        }
+                        out.eval();
+                        let r = guard(|| -> Vec<(ChangeTag, Vec<u8>)> { helper(0, alg, &a[..], &b[..]).into_iter().map(|(t, s)| (t, s.to_vec())).collect() });
+                        match r {
+                            Err(p) => out.violation("panic", format!("utils::diff_lines panicked: {}", p)),
+                            Ok(got) => {
+                                for (code, msg) in check_helper(&got, &a, &b) {
+                                    out.violation(code, format!("utils::diff_lines: {} | {} distinct lines per side (boundary {})", &msg[..msg.len().min(200)], n, bound));
+                                }
+                            }
+                        }
+                    }
+                }
+            },
+        ),
+        family(
             "slices_rnd",
             "utils::diff_slices on seeded random item sequences x 3 algorithms: same reconstruction, no empty slice, slices are sub-slices of the inputs",
             false,
